@@ -980,7 +980,7 @@ package kcache
 @*/
 
 /*@ func (*kcache._lister).executeList
-  props C03 C14 C08
+  props C03 C14 C08 C13
   theory lists
   requires (and (not (= {l} vnil)) (not (= {l.client} vnil)) (not (= {l.log} vnil)))
   ghost clientList : V := vnil
@@ -991,6 +991,8 @@ package kcache
   exit [client-error-is-reported] (=> (not (= clientErr vnil)) (and (not (= (|kcache.listResult.err| result) vnil)) (= (|kcache.listResult.list| result) vnil)))
   exit [success-returns-the-client-list-unmodified] (=> (= (|kcache.listResult.err| result) vnil) (and (= clientErr vnil) (= (|kcache.listResult.list| result) clientList)))
   exit [error-or-list] (= (= (|kcache.listResult.err| result) vnil) (not (= (|kcache.listResult.list| result) vnil)))
+  ghost pctx : V := {ctx}
+  at call(List) assert [lists-under-the-context-it-was-given-no-deadline-of-its-own] (= $0 pctx)
 @*/
 
 /*@ opaque (*kcache._watchSession).logStatus
@@ -1573,9 +1575,12 @@ package kcache
   ensures (=> (= result1 vnil) (not (= result0 vnil)))
 @*/
 /*@ func (*kcache.filterController).Refilter
-  props C06 C09
+  props C06 C09 C07
   requires (and (not (= {c} vnil)) (not (= {c.subscription} vnil)) (not (= {filter} vnil)))
   at call(Refilter) assert [refilters-its-own-subscription-with-the-given-filter] (and (= $recv {c.subscription}) (= $0 {filter}))
+  ghost forwarded : Bool := false
+  at call(Refilter) set forwarded := true
+  exit [every-refilter-is-forwarded-to-the-subscription-which-alone-decides-whether-it-is-a-no-op] forwarded
 @*/
 
 /*@ chaninv kcache._watcher.resetch
@@ -1671,6 +1676,11 @@ package kcache
   theory obj
   requires (and (not (= {c} vnil)) (not (= {obj} vnil)) (not (= {c.getch} vnil)) (not (= {c.lc} vnil)) (not {closed(c.getch)}))
   at call(Get) assert [looks-up-the-objects-own-key] (and (= $1 (obj-ns {obj})) (= $2 (obj-name {obj})))
+  ghost got : V := vnil
+  ghost gerr : V := vnil
+  at call(Get).after set got := $result0
+  at call(Get).after set gerr := $result1
+  exit [returns-exactly-what-the-cache-actor-answered] (and (= result0 got) (= result1 gerr))
 @*/
 
 /*@ func (*kcache._ticker).Reset
